@@ -484,15 +484,20 @@ type c14graph struct {
 }
 
 func c14slotsOf(k byte) int {
-	if k == 'M' {
+	if k == 'M' || k == 'm' {
 		return 1
 	}
 	return 2
 }
 
+// lower-case kinds are containers with a declared element type; putting another node into one is ill-typed, but
+// goatlang does not type-check assignments, so the printer meets such graphs (a run-time error at the assignment
+// is an acceptable outcome for them, a printer that does not return is not)
+func c14typedGraph(g c14graph) bool { return strings.ToUpper(g.Kinds) != g.Kinds }
+
 func c14graphProgram(g c14graph) string {
 	var b strings.Builder
-	b.WriteString("import \"fmt\"\ntype N struct {\n\tL any\n\tR any\n}\n")
+	b.WriteString("import \"fmt\"\ntype N struct {\n\tL any\n\tR any\n}\ntype P struct {\n\tL [][]int\n\tR map[string][]int\n}\n")
 	for i := 0; i < len(g.Kinds); i++ {
 		switch g.Kinds[i] {
 		case 'S':
@@ -501,6 +506,16 @@ func c14graphProgram(g c14graph) string {
 			fmt.Fprintf(&b, "n%d := []any{nil, nil}\n", i)
 		case 'M':
 			fmt.Fprintf(&b, "n%d := map[string]any{\"k\": nil}\n", i)
+		case 's':
+			fmt.Fprintf(&b, "n%d := &P{}\n", i)
+		case 'a':
+			fmt.Fprintf(&b, "n%d := [][]int{nil, nil}\n", i)
+		case 't':
+			fmt.Fprintf(&b, "n%d := [][][]int{nil, nil}\n", i)
+		case 'q':
+			fmt.Fprintf(&b, "n%d := []map[string][]int{nil, nil}\n", i)
+		case 'm':
+			fmt.Fprintf(&b, "n%d := map[string][]int{\"k\": nil}\n", i)
 		}
 	}
 	// every node is printed before the first assignment and again after each one (a printer must not carry state from
@@ -511,7 +526,7 @@ func c14graphProgram(g c14graph) string {
 		}
 	}
 	for i := 0; i < len(g.Kinds); i++ {
-		if g.Kinds[i] == 'A' {
+		if strings.IndexByte("Aatq", g.Kinds[i]) >= 0 {
 			fmt.Fprintf(&b, "alias%d := n%d[0:2]\n", i, i)
 		}
 	}
@@ -525,18 +540,18 @@ func c14graphProgram(g c14graph) string {
 				continue
 			}
 			switch g.Kinds[i] {
-			case 'S':
+			case 'S', 's':
 				fmt.Fprintf(&b, "n%d.%s = n%d\n", i, []string{"L", "R"}[j], t)
-			case 'A':
+			case 'A', 'a', 't', 'q':
 				fmt.Fprintf(&b, "alias%d[%d] = n%d\n", i, j, t)
-			case 'M':
+			case 'M', 'm':
 				fmt.Fprintf(&b, "n%d[\"k\"] = n%d\n", i, t)
 			}
 			printAll()
 		}
 	}
 	for i := 0; i < len(g.Kinds); i++ {
-		if g.Kinds[i] == 'A' {
+		if strings.IndexByte("Aatq", g.Kinds[i]) >= 0 {
 			fmt.Fprintf(&b, "_ = alias%d\n", i)
 		}
 	}
@@ -561,6 +576,23 @@ func c14graphs(thorough bool) []c14graph {
 			}
 		}
 		rec("")
+	}
+	// graphs with typed containers: all of <=2 nodes over the 8 kinds (those without a typed node are above already),
+	// and chosen triples
+	all := "SAMsatqm"
+	for i := 0; i < len(all); i++ {
+		if i >= 3 {
+			kinds = append(kinds, all[i:i+1])
+		}
+		for j := 0; j < len(all); j++ {
+			if i >= 3 || j >= 3 {
+				kinds = append(kinds, all[i:i+1]+all[j:j+1])
+			}
+		}
+	}
+	kinds = append(kinds, "atm", "saM", "qmA")
+	if thorough {
+		kinds = append(kinds, "aaa", "tat", "mqs", "Sam", "Atq", "aSa", "mmA", "tMs")
 	}
 	for _, ks := range kinds {
 		ns := 0
@@ -602,7 +634,9 @@ func C14Child(thorough bool) {
 		res := m.Eval(nil, c14graphProgram(gs[idx]))
 		m.Close()
 		st := "ok"
-		if res.Failed() {
+		if c14typedGraph(gs[idx]) && res.Err != nil && res.HostPanic == nil {
+			st = "ok" // an ill-typed store may be refused
+		} else if res.Failed() {
 			st = "failed:" + strings.ReplaceAll(firstLine(res.String()+fmt.Sprint(res.Err)), " ", "_")
 		} else {
 			rounds := 1
